@@ -331,7 +331,7 @@ pub fn run(tier: Tier, seed: u64) -> Report {
               failing in selection, failing later) followed by a target template (1..5 pay outputs, min_utxo of one of them \
               in 3 of 4 cases), stores giving every query exactly one candidate. Oracle: outcome on the used instance == \
               outcome on a fresh identically configured instance (payload, hash, fee or error kind). distinct = hash of the \
-              whole history; non-trivial = history non-empty, target uses min_utxo, last successful history entry has a \
+              whole history. Phase tight_funding (aimed): the target's only candidate UTxO holds the smallest amount a fresh instance can resolve (bisection) plus a small slack, earlier resolutions compile outputs of another size at the position min_utxo looks at, one time in three the last of them is funded one lovelace short and fails in a late round; non-trivial = history non-empty, target uses min_utxo, last successful history entry has a \
               different number of outputs"
         .into();
     r.assumptions = vec!["two fresh instances must agree first (otherwise counted as unstable_baseline, C10's subject)".into()];
